@@ -60,7 +60,7 @@ def run(name, script, total, start=0, limit=None, warm=0, batch=2, cap=1000, see
     extra = dict(extra or {})
     discrete = 3 if name in DISCRETE else 0
     env = HookEnv(script, discrete=discrete, low=low, high=high, reward_scale=0.25)
-    snaps, mods = [], {}
+    snaps, mods = extra.get("snaps_ref", []), extra.get("mods_ref", {})
     env.hook = lambda: snaps.append(snapshot(mods))
     res = {"name": name, "raised": None, "returned_step": None, "has_counter": True, "start": start}
     buf = None
@@ -72,6 +72,7 @@ def run(name, script, total, start=0, limit=None, warm=0, batch=2, cap=1000, see
             opt = nnx.Optimizer(q, optax.sgd(0.05), wrt=nnx.Param)
             buf = (PrioritizedReplayBuffer if name == "per" else ReplayBuffer)(cap, discrete_actions=True)
             mods["q"] = q
+            mods["q_optimizer"] = opt
             if name == "dqn":
                 from rl_blox.algorithm.dqn import train_dqn
                 out = train_dqn(q, env, buf, opt, batch_size=batch, total_timesteps=total, gamma=0.9, seed=seed, global_step=start, progress_bar=False)
@@ -103,7 +104,7 @@ def run(name, script, total, start=0, limit=None, warm=0, batch=2, cap=1000, see
                 st = create_td3_state(env, policy_hidden_nodes=tiny(), q_hidden_nodes=tiny(), seed=seed)
             pt, qt = nnx.clone(st.policy), nnx.clone(st.q)
             buf = LAP(cap) if name == "td3_lap" else ReplayBuffer(cap)
-            mods.update({"policy": st.policy, "q": st.q, "policy_target": pt, "q_target": qt})
+            mods.update({"policy": st.policy, "q": st.q, "policy_target": pt, "q_target": qt, "policy_optimizer": st.policy_optimizer, "q_optimizer": st.q_optimizer})
             tau = extra.get("tau", 0.25)
             kw = dict(seed=seed, total_timesteps=total, gamma=0.9, tau=tau, batch_size=batch, learning_starts=warm, replay_buffer=buf,
                       policy_target=pt, q_target=qt, global_step=start, progress_bar=False)
@@ -125,7 +126,8 @@ def run(name, script, total, start=0, limit=None, warm=0, batch=2, cap=1000, see
             qt = nnx.clone(st.q)
             buf = ReplayBuffer(cap)
             ec = EntropyControl(env, 0.2, True, 1e-2)
-            mods.update({"policy": st.policy, "q": st.q, "q_target": qt, "alpha": ec._alpha})
+            mods.update({"policy": st.policy, "q": st.q, "q_target": qt, "alpha": ec._alpha, "policy_optimizer": st.policy_optimizer, "q_optimizer": st.q_optimizer,
+                         "alpha_optimizer": ec.optimizer})
             out = train_sac(env, st.policy, st.policy_optimizer, st.q, st.q_optimizer, seed=seed, total_timesteps=total, total_episodes=limit,
                             gamma=0.9, tau=extra.get("tau", 0.25), batch_size=batch, learning_starts=warm, policy_delay=extra.get("pd", 2),
                             target_network_delay=extra.get("tnd", 1), replay_buffer=buf, q_target=qt, entropy_control=ec, global_step=start, progress_bar=False)
@@ -137,7 +139,8 @@ def run(name, script, total, start=0, limit=None, warm=0, batch=2, cap=1000, see
                                   policy_sa_encoding_nodes=4, policy_hidden_nodes=(4,), q_sa_encoding_nodes=4, q_hidden_nodes=(4,), seed=seed)
             at, ct = nnx.clone(st.actor), nnx.clone(st.critic)
             buf = LAP(cap)
-            mods.update({"embedding": st.embedding, "actor": st.actor, "critic": st.critic, "actor_target": at, "critic_target": ct})
+            mods.update({"embedding": st.embedding, "actor": st.actor, "critic": st.critic, "actor_target": at, "critic_target": ct,
+                         "embedding_optimizer": st.embedding_optimizer, "actor_optimizer": st.actor_optimizer, "critic_optimizer": st.critic_optimizer})
             import rl_blox.algorithm.td7 as td7m
             orig_pol, orig_assess, made, flags = td7m.DeterministicSALEPolicy, td7m.assess_performance_and_checkpoint, [], []
 
@@ -169,7 +172,8 @@ def run(name, script, total, start=0, limit=None, warm=0, batch=2, cap=1000, see
                                   encoder_zsa_dim=4, encoder_hidden_nodes=(4,), seed=seed)
             pet, qt = nnx.clone(st.policy_with_encoder), nnx.clone(st.q)
             buf = SubtrajectoryReplayBufferPER(cap, horizon=2)
-            mods.update({"policy_with_encoder": st.policy_with_encoder, "q": st.q, "policy_with_encoder_target": pet, "q_target": qt})
+            mods.update({"policy_with_encoder": st.policy_with_encoder, "q": st.q, "policy_with_encoder_target": pet, "q_target": qt,
+                         "encoder_optimizer": st.encoder_optimizer, "policy_optimizer": st.policy_optimizer, "q_optimizer": st.q_optimizer})
             out = train_mrq(env, st.policy_with_encoder, st.encoder_optimizer, st.policy_optimizer, st.q, st.q_optimizer, st.the_bins, seed=seed,
                             total_timesteps=total, total_episodes=limit, gamma=0.9, target_delay=extra.get("td", 3), batch_size=batch,
                             learning_starts=warm, encoder_horizon=2, q_horizon=2, replay_buffer=buf, policy_with_encoder_target=pet, q_target=qt,
@@ -184,6 +188,7 @@ def run(name, script, total, start=0, limit=None, warm=0, batch=2, cap=1000, see
             dm = create_pets_state(env, seed=seed, n_ensemble=2, hidden_nodes=(4,), batch_size=2)
             buf = ReplayBuffer(cap)
             mods["dynamics_model"] = dm.model
+            mods["dynamics_optimizer"] = dm.optimizer
             train_pets(env, reward_model, dm, plan_horizon=2, n_particles=2, n_samples=20, n_opt_iter=1, seed=seed, total_timesteps=total,
                        learning_starts=warm, learning_starts_gradient_steps=1, n_steps_per_iteration=extra.get("n_iter", 3), gradient_steps=1,
                        replay_buffer=buf, progress_bar=False)
